@@ -34,7 +34,7 @@ func (r *c02run) genuine(c *sim.Call) {
 	if r.sentSet[1-c.Who][txt] {
 		return
 	}
-	if bytes.HasPrefix(c.Plain, []byte("[resent] ")) && (r.allSent[1-c.Who][txt[9:]] || len(txt) == 9) {
+	if bytes.HasPrefix(c.Plain, []byte("[resent] ")) && r.allSent[1-c.Who][txt[9:]] {
 		// the library's resend feature; what may be resent is judged under C18
 		r.o.Class("resent-seen")
 		return
@@ -364,7 +364,10 @@ func runC02(sc *SessScript) *sim.Outcome {
 			// an unencrypted line injected by the network: must not pass as the peer's text
 			rcv := op.W & 1
 			inj := append([]byte("please send the password "), filler(0, op.L%30, op.F)...)
-			switch op.X % 4 {
+			switch op.X % 7 {
+			case 4, 5, 6: // a line that starts like protocol traffic and is none
+				inj = append([]byte([]string{"?OTR ", "?OTRx", "?OTR;"}[op.X%7-4]), inj...)
+				o.Class("plaintext-injected-otr-lookalike")
 			case 1: // with a whitespace tag behind it, as a peer that offers OTR would write it
 				inj = append(append(inj, ref.WSBase...), ref.WSV3...)
 				o.Class("plaintext-injected-with-tag")
@@ -416,6 +419,18 @@ func runC02(sc *SessScript) *sim.Outcome {
 			if op.F%2 == 0 {
 				s.Exec(SOp{K: "flush"})
 			}
+		case "complain":
+			// the peer's client (or anybody) reports a message unreadable; the parties re-key without ending the
+			// session, which is when the library sends its last message once more, marked "[resent]"
+			rcv := op.W & 1
+			c := s.W.Receive(rcv, []byte("?OTR Error: could not read that"))
+			s.W.Q[rcv] = filterOut(s.W.Q[rcv], c)
+			s.Exec(SOp{K: "flush"})
+			s.W.AgeClock(0, 3*60e9)
+			s.W.AgeClock(1, 3*60e9)
+			s.Exec(SOp{K: "query", W: op.I & 1})
+			s.Exec(SOp{K: "flush"})
+			o.Class("complaint-and-refresh")
 		case "injcommit":
 			// somebody who has seen the traffic (instance tags travel in the clear) sends the receiver a D-H Commit of his
 			// own; the answer is lost. Starting an exchange must not weaken the session that is still in use.
@@ -514,7 +529,7 @@ func genAtk(rt *rapid.T) SOp {
 
 func TestProp_C02_Attack(t *testing.T) {
 	defer sim.MarkCompleted("C02attack", false)
-	kinds := []string{"pp", "pp", "send", "send", "send", "dl", "dl", "holdback", "holdback", "injcommit", "atk", "atk", "atk", "atk", "atk", "atk", "rekey", "smp", "ans", "xk", "age", "injplain", "injplain"}
+	kinds := []string{"pp", "pp", "send", "send", "send", "dl", "dl", "holdback", "holdback", "injcommit", "complain", "atk", "atk", "atk", "atk", "atk", "atk", "rekey", "smp", "ans", "xk", "age", "injplain", "injplain"}
 	rapid.Check(t, func(rt *rapid.T) {
 		sc := &SessScript{Cfg: genSessCfg(rt)}
 		switch rapid.IntRange(0, 3).Draw(rt, "wsstart") {
@@ -531,7 +546,7 @@ func TestProp_C02_Attack(t *testing.T) {
 				op = genAtk(rt)
 			}
 			if op.K == "injplain" {
-				op.X = rapid.IntRange(0, 3).Draw(rt, "tagform")
+				op.X = rapid.IntRange(0, 6).Draw(rt, "tagform")
 			}
 			sc.Ops = append(sc.Ops, op)
 		}
